@@ -16,6 +16,7 @@ import (
 	"fmt"
 	"os"
 	"path/filepath"
+	"runtime"
 	"runtime/debug"
 	"sort"
 	"strconv"
@@ -225,6 +226,9 @@ func runWatched[C any](o Options, run func(C, *Ev) error, c C, ev *Ev, raw []byt
 	case <-tm.C:
 		p := filepath.Join(outDir(), fmt.Sprintf("hang-%s-%s-%d.json", o.Prop, o.Name, os.Getpid()))
 		writeEnvelope(p, o, raw, fmt.Sprintf("hang: case did not finish within %v", o.Timeout))
+		// all goroutine stacks, for diagnosis
+		buf := make([]byte, 8<<20)
+		os.WriteFile(p+".stacks.txt", buf[:runtime.Stack(buf, true)], 0o644)
 		fmt.Printf("HANG-CANDIDATE property=%s test=%s file=%s\n", o.Prop, o.Name, p)
 		os.Exit(3)
 		return nil
